@@ -115,7 +115,12 @@ def _worker(payload):
     return rec
 
 
-TRICKY = ["a.b", "a_b", "1x", "for", "x-y", "x_y", "return", "a.b.c", "a_b_c", "0", "__0", "lambda", "r_lambda", "x y"]
+# groups of names that collide after clean-up: pairs, triples, and names equal to the suffix the exporter would generate
+GROUPS = [["a.b", "a_b", "a-b", "a_b_0"], ["x-y", "x_y_0", "x_y", "x.y"], ["for", "r_for", "r.for", "r_for_0"],
+          ["0", "__0", "__0_0", "_.0"], ["a.b.c", "a_b_c", "a.b_c", "a_b.c"], ["lambda", "r_lambda", "return", "r_return"],
+          ["1x", "__1x", "x y", "x_y_1"]]
+TRICKY = [n for g in GROUPS for n in g]
+assert len(set(TRICKY)) == len(TRICKY)
 
 
 def adversarial_rename(mp: onnx.ModelProto, shift: int) -> onnx.ModelProto:
@@ -130,7 +135,7 @@ def adversarial_rename(mp: onnx.ModelProto, shift: int) -> onnx.ModelProto:
     for n in m.graph.node:
         for o in n.output:
             if o and o not in outs and o not in ins and o not in mapping:
-                mapping[o] = TRICKY[k % len(TRICKY)] if k < shift + len(TRICKY) else o
+                mapping[o] = TRICKY[(4 * shift + (k - shift)) % len(TRICKY)] if k < shift + len(TRICKY) else o
                 k += 1
 
     def ren_graph(g):
@@ -176,7 +181,7 @@ def corpus(tier):
             tmod = S.load_source(tsrc, "c13typed")
             mp = getattr(tmod, p.entry).to_model_proto()
             items.append((f"script:{p.name}", mp.SerializeToString(), [(n, int(dt), tuple(sh)) for n, dt, sh in spec]))
-            if "random" not in p.tags and len(mp.graph.node) >= 3 and len(items) % 3 == 0:
+            if "random" not in p.tags and len(mp.graph.node) >= 3:
                 am = adversarial_rename(mp, len(items))
                 items.append((f"script:{p.name}:tricky-names", am.SerializeToString(), [(n, int(dt), tuple(sh)) for n, dt, sh in spec]))
         except Exception:  # noqa: BLE001 - refused programs are not in the class
